@@ -38,6 +38,26 @@ Fixpoint fun_replay (s : fun_st) (l : list fcall) : bool :=
       Bool.eqb f fired && option_eqb Z.eqb (f_value s') after && fun_replay s' r
   end.
 
+(* the same as a function: the values _on_value_selection is called with, in order *)
+Fixpoint fun_exec (s : fun_st) (args : list (option Z)) : fun_st * list (option Z) :=
+  match args with
+  | [] => (s, [])
+  | v :: r =>
+      let '(s1, f) := fun_call s v in
+      let '(s2, e) := fun_exec s1 r in
+      (s2, if f then v :: e else e)
+  end.
+
+(* random_value_selection(): domain[randint(len(domain))] then value_selection; None = empty domain *)
+Definition fun_random (s : fun_st) (dom : list Z) (i : Z) : option (fun_st * bool) :=
+  match dom with
+  | [] => None
+  | _ => match nth_error dom (Z.to_nat (i mod Z.of_nat (List.length dom))) with
+         | Some v => Some (fun_call s (Some v))
+         | None => None
+         end
+  end.
+
 (* ------------------------------------------------------------------ helpers *)
 Definition draw (o : list Z) : Z * list Z := match o with [] => (0, []) | x :: r => (x, r) end.
 
